@@ -386,7 +386,7 @@ fn tagset(t: &mut Tape) -> Vec<String> {
 }
 
 fn ops(t: &mut Tape, nq: usize, blocker: bool, extra_pool: &[String]) -> Vec<Op> {
-    let m = 3 + t.pick(20);
+    let m = if t.chance(1, 8) { 25 + t.pick(60) } else { 3 + t.pick(20) };
     let mut v = vec![];
     for _ in 0..m {
         v.push(match t.pick(16) {
